@@ -7,7 +7,7 @@
 
     Parameters: the symbol coder (C08) and the metadata coder (C11); the theorems assume their
     round-trip laws only. *)
-From Draco Require Import Base.Codec Base.Float32 Gen.Constants Model.Varint Model.Wrap Model.Quantize Model.SeqAttr.
+From Draco Require Import Base.Codec Base.Float32 Gen.Constants Model.Varint Model.Wrap Model.Quantize Model.Octahedron Model.Normals Model.SeqAttr.
 Local Open Scope Z_scope.
 
 Record att_desc := {
@@ -21,7 +21,8 @@ Record att_desc := {
 Inductive att_kind :=
 | KGeneric
 | KInteger (o : int_opts)
-| KQuant (q : Z) (explicit : option (list Z * Z)) (o : int_opts).   (* explicit (origin bits, range bits) *)
+| KQuant (q : Z) (explicit : option (list Z * Z)) (o : int_opts)    (* explicit (origin bits, range bits) *)
+| KNormal (q : Z) (o : int_opts).                                   (* quantized normals (octahedral), q = quantization_bits *)
 
 Record attribute := { a_desc : att_desc; a_kind : att_kind; a_rows : list (list Z) (* per point: component bit patterns *) }.
 
@@ -30,14 +31,22 @@ Definition kind_id (k : att_kind) : Z :=
   | KGeneric => SEQUENTIAL_ATTRIBUTE_ENCODER_GENERIC_
   | KInteger _ => SEQUENTIAL_ATTRIBUTE_ENCODER_INTEGER_
   | KQuant _ _ _ => SEQUENTIAL_ATTRIBUTE_ENCODER_QUANTIZATION_
+  | KNormal _ _ => SEQUENTIAL_ATTRIBUTE_ENCODER_NORMALS_
   end.
 (** CreateSequentialEncoder's choice, as a check on the given kind *)
 Definition kind_matches (d : att_desc) (k : att_kind) : bool :=
   match k with
   | KInteger _ => dt_is_int (ad_dt d)
   | KQuant q _ _ => (ad_dt d =? DT_FLOAT32_) && (0 <? q) && negb (ad_type d =? ATT_NORMAL_)
+  | KNormal q _ => (ad_dt d =? DT_FLOAT32_) && (0 <? q) && (ad_type d =? ATT_NORMAL_)
   | KGeneric => negb (dt_is_int (ad_dt d))
   end.
+
+(** the 2-component portable form of quantized normals *)
+Definition row_of_pt (p : pt) : list Z := [fst p; snd p].
+Definition pt_of_row (r : list Z) : pt := match r with [s; t] => (s, t) | _ => (0, 0) end.
+Definition vec3_of_row (r : list Z) : vec3 := match r with [a; b; c] => vec3_of_bits a b c | _ => vec3_of_bits 0 0 0 end.
+Definition vec3_bits (v : vec3) : list Z := let '(x, y, z) := v in [bits_of_f32 x; bits_of_f32 y; bits_of_f32 z].
 
 Section SeqCodec.
   Variable enc_syms : Z -> Z -> Z -> list Z -> option bytes.
@@ -97,10 +106,19 @@ Section SeqCodec.
             end
         | None => None
         end
+    | KNormal q o =>
+        (* SequentialNormalAttributeEncoder::Init: 3 components (q >= 1 is kind_matches); PrepareValues =
+           AttributeOctahedronTransform::TransformAttribute, which rejects q outside 2..30 *)
+        if negb (ad_nc (a_desc a) =? 3) then None else
+        match oct_generate_portable q (map vec3_of_row (a_rows a)) with
+        | Ok pts => enc_norm_block enc_syms o q pts
+        | _ => None
+        end
     end.
   Definition enc_transform_data (a : attribute) : option bytes :=
     match a_kind a with
     | KQuant _ _ _ => match quant_params a with Some p => encode_parameters p | None => None end
+    | KNormal q _ => oct_encode_parameters q
     | _ => Some []
     end.
   Fixpoint ocat {A} (f : A -> option bytes) (l : list A) : option bytes :=
@@ -237,26 +255,35 @@ Section SeqCodec.
 
   (** what a decoded attribute holds *)
   Record dec_att := { da_desc : att_desc; da_kind_id : Z; da_rows : list (list Z);
-                      da_tdata : option qparams (* AttributeTransformData left on a skipped quantized attribute *) }.
+                      da_tdata : option qparams (* AttributeTransformData left on a skipped quantized attribute *);
+                      da_oct : option Z (* ATTRIBUTE_OCTAHEDRON_TRANSFORM data (quantization bits) left on a skipped normal attribute *) }.
 
   (** DecoderOptions: SetSkipAttributeTransform(type) — by attribute type *)
   Variable skip : Z -> bool.
 
   (** DecodePortableAttribute for one attribute: the rows it leaves in the portable/int form, or the
       final raw rows for the generic coder *)
-  Definition dec_values (npoints : nat) (d : att_desc) (kid : Z) (bs : bytes) : option (list (list Z) * bytes) :=
+  Definition dec_values (ver : Z) (npoints : nat) (d : att_desc) (kid : Z) (bs : bytes) : option (list (list Z) * bytes) :=
     let nc := Z.to_nat (ad_nc d) in
     if kid =? SEQUENTIAL_ATTRIBUTE_ENCODER_GENERIC_ then dec_generic (Z.to_nat (dt_len (ad_dt d))) nc npoints bs
     else if kid =? SEQUENTIAL_ATTRIBUTE_ENCODER_INTEGER_ then dec_int_block dec_syms nc npoints bs
     else if kid =? SEQUENTIAL_ATTRIBUTE_ENCODER_QUANTIZATION_ then
       (if ad_dt d =? DT_FLOAT32_ then dec_int_block dec_syms nc npoints bs else None)   (* Init checks DT_FLOAT32 *)
+    else if kid =? SEQUENTIAL_ATTRIBUTE_ENCODER_NORMALS_ then
+      (* SequentialNormalAttributeDecoder::Init: 3 components, DT_FLOAT32; the portable attribute has 2 components *)
+      (if (ad_nc d =? 3) && (ad_dt d =? DT_FLOAT32_) then
+         match dec_norm_block dec_syms ver npoints bs with
+         | Some (pts, r) => Some (map row_of_pt pts, r)
+         | None => None
+         end
+       else None)
     else None.
-  Fixpoint dec_all_values (npoints : nat) (ds : list (att_desc * Z)) (bs : bytes)
+  Fixpoint dec_all_values (ver : Z) (npoints : nat) (ds : list (att_desc * Z)) (bs : bytes)
     : option (list (list (list Z)) * bytes) :=
     match ds with
     | [] => Some ([], bs)
-    | (d, kid) :: r => match dec_values npoints d kid bs with
-                       | Some (rows, r1) => match dec_all_values npoints r r1 with
+    | (d, kid) :: r => match dec_values ver npoints d kid bs with
+                       | Some (rows, r1) => match dec_all_values ver npoints r r1 with
                                             | Some (l, r2) => Some (rows :: l, r2)
                                             | None => None
                                             end
@@ -269,21 +296,37 @@ Section SeqCodec.
     let portable_desc := {| ad_type := ad_type d; ad_dt := DT_INT32_; ad_nc := ad_nc d; ad_norm := false; ad_uid := ad_uid d |} in
     let words := map (map (fun v => v mod 2 ^ 32)) rows in
     if kid =? SEQUENTIAL_ATTRIBUTE_ENCODER_GENERIC_ then
-      Some ({| da_desc := d; da_kind_id := kid; da_rows := rows; da_tdata := None |}, bs)   (* no portable attribute: never skipped *)
+      Some ({| da_desc := d; da_kind_id := kid; da_rows := rows; da_tdata := None; da_oct := None |}, bs)   (* no portable attribute: never skipped *)
     else if kid =? SEQUENTIAL_ATTRIBUTE_ENCODER_INTEGER_ then
       if skip (ad_type d) then
-        Some ({| da_desc := portable_desc; da_kind_id := kid; da_rows := words; da_tdata := None |}, bs)   (* attribute := copy of the int32 portable attribute *)
+        Some ({| da_desc := portable_desc; da_kind_id := kid; da_rows := words; da_tdata := None; da_oct := None |}, bs)   (* attribute := copy of the int32 portable attribute *)
       else if dt_is_int (ad_dt d) then
-        Some ({| da_desc := d; da_kind_id := kid; da_rows := map (map (of_int32_value (ad_dt d))) rows; da_tdata := None |}, bs)
+        Some ({| da_desc := d; da_kind_id := kid; da_rows := map (map (of_int32_value (ad_dt d))) rows; da_tdata := None; da_oct := None |}, bs)
       else None                                                                          (* StoreValues default: false *)
+    else if kid =? SEQUENTIAL_ATTRIBUTE_ENCODER_NORMALS_ then
+      (* DecodeDataNeededByPortableTransform = AttributeOctahedronTransform::DecodeParameters (one byte, unchecked);
+         StoreValues = InverseTransformAttribute, which rejects bits outside 2..30; skipped: the 2-component int32
+         portable attribute with the octahedron transform data *)
+      match oct_decode_parameters bs with
+      | Some (q, r) =>
+          if skip (ad_type d) then
+            Some ({| da_desc := {| ad_type := ad_type d; ad_dt := DT_INT32_; ad_nc := 2; ad_norm := false; ad_uid := ad_uid d |};
+                     da_kind_id := kid; da_rows := words; da_tdata := None; da_oct := Some q |}, r)
+          else
+            match oct_inverse_transform q (map pt_of_row rows) with
+            | Ok vs => Some ({| da_desc := d; da_kind_id := kid; da_rows := map vec3_bits vs; da_tdata := None; da_oct := None |}, r)
+            | _ => None
+            end
+      | None => None
+      end
     else
       match decode_parameters (Z.to_nat (ad_nc d)) bs with
       | Some (p, r) =>
           if skip (ad_type d) then
-            Some ({| da_desc := portable_desc; da_kind_id := kid; da_rows := words; da_tdata := Some p |}, r)
+            Some ({| da_desc := portable_desc; da_kind_id := kid; da_rows := words; da_tdata := Some p; da_oct := None |}, r)
           else
             match inverse_transform p words with
-            | Ok fr => Some ({| da_desc := d; da_kind_id := kid; da_rows := map (map bits_of_f32) fr; da_tdata := None |}, r)
+            | Ok fr => Some ({| da_desc := d; da_kind_id := kid; da_rows := map (map bits_of_f32) fr; da_tdata := None; da_oct := None |}, r)
             | _ => None
             end
       | None => None
@@ -317,7 +360,8 @@ Section SeqCodec.
                  match take_bytes (Z.to_nat n) r1 with
                  | Some (kids, r2) =>
                      if forallb (fun k => (k =? SEQUENTIAL_ATTRIBUTE_ENCODER_GENERIC_) || (k =? SEQUENTIAL_ATTRIBUTE_ENCODER_INTEGER_)
-                                          || (k =? SEQUENTIAL_ATTRIBUTE_ENCODER_QUANTIZATION_)) kids   (* normals: not modelled here *)
+                                          || (k =? SEQUENTIAL_ATTRIBUTE_ENCODER_QUANTIZATION_)
+                                          || (k =? SEQUENTIAL_ATTRIBUTE_ENCODER_NORMALS_)) kids
                      then Some (combine ds kids, r2) else None
                  | None => None
                  end
@@ -336,15 +380,15 @@ Section SeqCodec.
              | None => None
              end
     end.
-  Fixpoint dec_decoders_atts (npoints : nat) (dds : list (list (att_desc * Z))) (bs : bytes)
+  Fixpoint dec_decoders_atts (ver : Z) (npoints : nat) (dds : list (list (att_desc * Z))) (bs : bytes)
     : option (list dec_att * bytes) :=
     match dds with
     | [] => Some ([], bs)
     | ds :: r =>
-        match dec_all_values npoints ds bs with
+        match dec_all_values ver npoints ds bs with
         | Some (rowss, r1) =>
             match finish_all ds rowss r1 with
-            | Some (atts, r2) => match dec_decoders_atts npoints r r2 with
+            | Some (atts, r2) => match dec_decoders_atts ver npoints r r2 with
                                  | Some (l, r3) => Some (atts ++ l, r3)
                                  | None => None
                                  end
@@ -353,12 +397,12 @@ Section SeqCodec.
         | None => None
         end
     end.
-  Definition dec_attributes (npoints : nat) (bs : bytes) : option (list dec_att * bytes) :=
+  Definition dec_attributes (ver : Z) (npoints : nat) (bs : bytes) : option (list dec_att * bytes) :=
     match bs with
     | [] => None
     | nd :: r =>
         match dec_decoders_data (Z.to_nat nd) r with
-        | Some (dds, r1) => dec_decoders_atts npoints dds r1
+        | Some (dds, r1) => dec_decoders_atts ver npoints dds r1
         | None => None
         end
     end.
@@ -384,7 +428,7 @@ Section SeqCodec.
               match dec_le 4 r1 with
               | None => None
               | Some (np, r2) =>
-                  match dec_attributes (Z.to_nat np) r2 with
+                  match dec_attributes (h_maj h * 256 + h_min h) (Z.to_nat np) r2 with
                   | Some (atts, r3) => Some ({| dp_npoints := np; dp_md := md; dp_atts := atts |}, r3)
                   | None => None
                   end
@@ -473,7 +517,7 @@ Section SeqCodec.
               match dec_connectivity r1 with
               | None => None
               | Some (np, faces, r2) =>
-                  match dec_attributes (Z.to_nat np) r2 with
+                  match dec_attributes (h_maj h * 256 + h_min h) (Z.to_nat np) r2 with
                   | Some (atts, r3) => Some ({| dm_npoints := np; dm_md := md; dm_faces := faces; dm_atts := atts |}, r3)
                   | None => None
                   end
